@@ -247,8 +247,8 @@ func c01Run(c *vfCtx, cs c01Case) {
 		c.violation(class(), "replay changed the snapshot directory: "+d, cs)
 		return
 	}
-	if cs.Family == "A2" && !c.thorough() && vfHashJSON(cs)%3 != 0 {
-		return // quick tier: the two phases below cover every third program of the largest family, and every program of the others
+	if cs.Family == "A2" && !c.thorough() && vfHashJSON(cs)%6 != 0 {
+		return // quick tier: the two phases below cover every sixth program of the largest family, and every program of the others
 	}
 	replay := func(what string, reset bool) bool {
 		if reset {
@@ -283,7 +283,7 @@ func c01Run(c *vfCtx, cs c01Case) {
 		return
 	}
 	var perms [][]int
-	if len(es) <= 3 {
+	if len(es) == 2 || (len(es) == 3 && c.thorough()) {
 		perms = c10Perms(len(es))[1:]
 	} else {
 		rev, rot := make([]int, len(es)), make([]int, len(es))
@@ -309,7 +309,7 @@ func c01Run(c *vfCtx, cs c01Case) {
 
 func init() {
 	vfRegister("C01", func(c *vfCtx, emit func(c01Case)) {
-		c.rule = "every program of the families A1/A2/B/C/D/E over the line-token alphabet (DESIGN §3.1) is recorded, replayed in a fresh process state, executed twice more in that same process state, and replayed against every other order of the recorded entries (<= 3 entries: all permutations), on the real code; " +
+		c.rule = "every program of the families A1/A2/B/C/D/E over the line-token alphabet (DESIGN §3.1) is recorded, replayed in a fresh process state, executed twice more in that same process state, and replayed against other orders of the recorded entries (2 entries: the other order; 3: all permutations in thorough; otherwise reversal and rotation), on the real code; " +
 			"non-trivial = distinct programs that contain a special token (blank/terminator/escape/header-like/non-UTF-8/long line), a pre-existing entry or two tests"
 		c01Gen(c, emit)
 	}, c01Run)
